@@ -1,13 +1,16 @@
 """C11 - Memory per connection and work per packet stay bounded for any traffic.
 
-Structural clauses decided (DESIGN.md §5 C11):
+Structural clauses decided:
  R1 growth discipline: every growth site of per-connection state (HTTP flow segment lists, TLS reader buffer) reaches
     each function exit either through a clear/drain/reset of that container, under a length bound, on an error exit
-    (the owner drops the flow) or in the same arm as the terminal flag; connection caches are constructed with the
-    configured capacity
+    (the owner drops the flow) or in the same arm as the terminal flag; segments are stored only while the direction's parsed flag
+    is clear; connection caches are constructed with the configured capacity; the configured limits reach the constructors
+    under their own names (no exchanged same-typed arguments)
  R2 the per-packet path does not traverse (clone / sort / iterate) a container that accumulates per-flow data
  R3 the size caps are still in front of the allocation they protect (64 KiB TLS record, HTTP/2 frame size,
     HTTP/1 header count and line lengths)
+ C05.R1 / C08.R3 / C10.R3 / W.R2 bounds that rest on rules of other properties (head-only decode, TLS flow lifecycle,
+    batch drained, per-worker capacity)
 """
 from ..engine import cfg as C
 from ..engine import q as Q
